@@ -605,7 +605,12 @@ def process_batch(ctx, batch, cbi_eval, work):
             continue
         ctruth = cv[0] != 0
         if ctruth != gt:
-            acc.oracle_disagreement({"expr": expr, "macros": macros, "gcc": gt, "cexpr": cv})
+            if has_lazy_undefined(expr, macros):
+                # gcc types an undefined operation in an unevaluated operand after its left operand (9/0u is
+                # signed for gcc, unsigned in ISO C); the result type then differs between the two oracles.
+                acc.excluded("oracles-differ-on-type-of-undefined-unevaluated-operand", cls=cls)
+            else:
+                acc.oracle_disagreement({"expr": expr, "macros": macros, "gcc": gt, "cexpr": cv})
             continue
         st, val = cbi_eval(expr, macros)
         acc.hook("H-cbi-eval")
